@@ -22,6 +22,10 @@ def klass(site):
         if isinstance(x, ast.Name):
             return [f"<{x.id}>"]
         return None
+    if isinstance(c, ast.Compare) and len(c.ops) == 1 and isinstance(c.left, ast.Call) and isinstance(c.left.func, ast.Attribute) \
+            and c.left.func.attr == "startswith" and is_value(c.left.func.value) and c.left.args \
+            and isinstance(c.left.args[0], ast.Name) and site.get("table_values") is not None:
+        return "STARTSWITH_CONST", site["table_values"]
     if isinstance(c, ast.Compare) and len(c.ops) == 1:
         left, right = c.left, c.comparators[0]
         op = type(c.ops[0]).__name__
@@ -62,6 +66,8 @@ def klass(site):
             return "ISUPPER", None
         if a == "startswith" and c.args and isinstance(c.args[0], ast.Constant):
             return "STARTSWITH_CONST", [c.args[0].value]
+        if a == "startswith" and c.args and isinstance(c.args[0], ast.Name) and site.get("table_values") is not None:
+            return "STARTSWITH_CONST", site["table_values"]
         if a == "strip":
             return "STRIP", None
     if isinstance(c, ast.Call) and isinstance(c.func, ast.Attribute) and c.func.attr == "strip":
@@ -110,6 +116,53 @@ def canonical_text(repo, relfile, node):
     return ast.unparse(node)
 
 
+def table_values_of_startswith_arg(repo, site):
+    """value.startswith(<name>): when <name> is bound (possibly by tuple unpacking) from a
+    subscript of a module-level dict literal, the string constants it can take -> list | None"""
+    c = site["consumer_node"]
+    call = None
+    for x in ast.walk(c):
+        if isinstance(x, ast.Call) and isinstance(x.func, ast.Attribute) and x.func.attr == "startswith" and x.args \
+                and isinstance(x.args[0], ast.Name):
+            call = x
+    if call is None:
+        return None
+    name = call.args[0].id
+    mod = repo.module(site["file"])
+    fn = None
+    for node in ast.walk(mod.tree):
+        if isinstance(node, ast.FunctionDef) and any(x is c for x in ast.walk(node)):
+            fn = node
+    if fn is None:
+        return None
+    out = None
+    for x in ast.walk(fn):
+        if not isinstance(x, ast.Assign) or not isinstance(x.value, ast.Subscript) or not isinstance(x.value.value, ast.Name):
+            continue
+        tgt = x.targets[0]
+        pos = None
+        if isinstance(tgt, ast.Name) and tgt.id == name:
+            pos = -1
+        elif isinstance(tgt, ast.Tuple):
+            for k, e in enumerate(tgt.elts):
+                if isinstance(e, ast.Name) and e.id == name:
+                    pos = k
+        if pos is None:
+            continue
+        table = mod.top.get(x.value.value.id)
+        lit = table.value if isinstance(table, ast.Assign) else None
+        if not isinstance(lit, ast.Dict):
+            return None
+        vals = []
+        for v in lit.values:
+            e = v if pos == -1 else (v.elts[pos] if isinstance(v, ast.Tuple) and pos < len(v.elts) else None)
+            if not (isinstance(e, ast.Constant) and isinstance(e.value, str)):
+                return None
+            vals.append(e.value)
+        out = (out or []) + vals
+    return out
+
+
 def value_sites(repo):
     out = []
     for s in scan.attr_reads(repo, {"value"}):
@@ -117,10 +170,13 @@ def value_sites(repo):
                                                                           "norminette/lexer/tokens.py",
                                                                           "norminette/errors.py")):
             continue
+        s["table_values"] = table_values_of_startswith_arg(repo, s)
         k, d = klass(s)
         s2 = dict(s)
         s2["class"], s2["detail"] = k, d
-        s2["key"] = f"{s['file']}|{s['function']}|{canonical_text(repo, s['file'], s['consumer_node'])}"
+        # the key does not name the function: moving an expression into a helper of the same file
+        # is not a new consumer
+        s2["key"] = f"{s['file']}|{canonical_text(repo, s['file'], s['consumer_node'])}"
         s2["key_as_written"] = f"{s['file']}|{s['function']}|{s['consumer']}"
         out.append(s2)
     return out
